@@ -745,6 +745,10 @@ impl<T: GseDecapMemory, C: CrcCalculator, MHEM: MandatoryHeaderExtensionManager>
         if pdu_buffer_len < calculed_pdu_len {
             return Err(self.give_back(pdu, DecapError::ErrorSizePduBuffer, pkt_len));
         }
+        // the reassembled pdu can never exceed what the 16-bit total length can announce
+        if decap_context.pdu_len as usize + calculed_pdu_len > u16::MAX as usize {
+            return Err(self.give_back(pdu, DecapError::ErrorTotalLength, pkt_len));
+        }
         pdu_buffer[..calculed_pdu_len].copy_from_slice(&buffer[offset..offset + calculed_pdu_len]);
 
         // save state
@@ -817,8 +821,8 @@ impl<T: GseDecapMemory, C: CrcCalculator, MHEM: MandatoryHeaderExtensionManager>
             )
         };
 
-        let total_len_received = (pdu_len + PROTOCOL_LEN + first_label_len) as u16;
-        if decap_context.total_len != total_len_received {
+        let total_len_received = pdu_len + PROTOCOL_LEN + first_label_len;
+        if decap_context.total_len as usize != total_len_received {
             return Err(self.give_back(pdu, DecapError::ErrorTotalLength, pkt_len));
         }
 
